@@ -49,7 +49,7 @@ func randName(r *rand.Rand, total int) string {
 		}
 		l := make([]byte, n)
 		for i := range l {
-			l[i] = "abcdefghijklmnopqrstuvwxyz0123456789"[r.Intn(36)]
+			l[i] = "abcdefghijklmnopqrstuvwxyz0123456789ABCXYZ"[r.Intn(42)] // mixed case: names are forwarded and reported as sent
 		}
 		labels = append(labels, string(l))
 		left -= n + 1
